@@ -27,7 +27,8 @@ from harness import tlc
 from harness.framework import run_check, MachineryError, VERIF
 
 SPEC = os.path.join(VERIF, 'specs', 'Scp')
-INVS = ['TreeReproduced', 'RefusalsReported', 'NoDesync', 'ForwardedRight']
+INVS = ['TreeReproduced', 'RefusalsReported', 'NoDesync', 'ForwardedRight',
+        'FatalRaised']
 ALLREF = '{"sopen", "sread", "kcreate", "kwrite", "kstat"}'
 
 BASE = dict(MaxNodes=2, Sizes='{0, 1, 2}', Topo='"direct"', SrcRole='"code"',
@@ -36,7 +37,8 @@ BASE = dict(MaxNodes=2, Sizes='{0, 1, 2}', Topo='"direct"', SrcRole='"code"',
             DirFlagSet='{TRUE, FALSE}', HandlerSet='{TRUE, FALSE}',
             DstKinds='{"dir", "none", "file"}', RefKinds=ALLREF, MaxRefuse=1,
             AllowCut='"no"', MaxRec=0, MaxName=0, TopMax=2, KeepLog='TRUE',
-            WaitAfterData='TRUE', WarnIsFatal='FALSE', SendEmptyE='TRUE',
+            WaitAfterData='TRUE', WarnIsFatal='FALSE', FatalIsWarn='FALSE',
+            SendEmptyE='TRUE',
             SinkReadsStatus='TRUE', RecordErrors='TRUE',
             StatBeforeReply='TRUE', ZeroFillFirst='TRUE',
             CopierRightSide='TRUE')
@@ -127,8 +129,13 @@ def report(ctx, where, r, replay, counters):
     """verdicts of one replay"""
     cfg = r['cfg']
     kinds = '+'.join(refkinds(cfg)) or 'none'
+    # the two reported defects of the pinned tree get a stable signature:
+    # attributes set after the final reply (any sink-side setstat failure),
+    # stale buffer when a read fails (only a server-side source can be made
+    # to fail a read; a local source meets 'Unexpected EOF' instead)
     defect = 'setstat_after_reply' if 'kstat' in kinds else \
-        'read_failure_stale_buffer' if 'sread' in kinds else 'none'
+        'read_failure_stale_buffer' if 'sread' in kinds and \
+        where in ('download', 'r2r', 'srv_source') else 'none'
     for clause, text in r['violations']:
         key = (clause, where, defect if defect != 'none' else kinds)
         counters[key] = counters.get(key, 0) + 1
@@ -155,6 +162,13 @@ def compact(cfg):
 
 def main(ctx):
     from harness.drivers import scp as drv
+    try:
+        _main(ctx, drv)
+    finally:
+        drv.drop_world()        # servers, connections, temp directories
+
+
+def _main(ctx, drv):
     quick = ctx.tier == 'quick'
     rnd = random.Random(ctx.seed * 7919 + 101)
     os.makedirs(tlc.WORK, exist_ok=True)
@@ -187,7 +201,8 @@ def main(ctx):
         # exhaustive design check that also prints one case per terminal state
         ('up2', 'upload', dict(UP)),
         ('down2', 'download', dict(DOWN)),
-        ('r2r2', 'r2r', dict(R2R)),
+        ('r2r2', 'r2r', dict(R2R, DstKinds='{"dir", "none"}') if quick
+         else dict(R2R)),
         ('up3', 'upload', dict(UP, **N3)),
         ('down3', 'download', dict(DOWN, **N3)),
         ('r2r3', 'r2r', dict(R2R, **N3)),
@@ -209,19 +224,19 @@ def main(ctx):
     k = 1 if quick else 8
     sims = [
         # (name, setup, number of random behaviours, constants)
-        ('s_clisrc_c', 'cli_source', 2500 * k, dict(FS, **CUT)),
-        ('s_clisrc_n', 'cli_source', 2500 * k, dict(FS, **NOCUT)),
-        ('s_srvsrc_c', 'srv_source', 2000 * k,
+        ('s_clisrc_c', 'cli_source', 1200 * k, dict(FS, **CUT)),
+        ('s_clisrc_n', 'cli_source', 1200 * k, dict(FS, **NOCUT)),
+        ('s_srvsrc_c', 'srv_source', 1200 * k,
          dict(FS, SrcServer='TRUE', HandlerSet='{FALSE}', **CUT)),
-        ('s_srvsrc_n', 'srv_source', 2000 * k,
+        ('s_srvsrc_n', 'srv_source', 1200 * k,
          dict(FS, SrcServer='TRUE', HandlerSet='{FALSE}', **NOCUT)),
-        ('s_clisnk_c', 'cli_sink', 2500 * k,
+        ('s_clisnk_c', 'cli_sink', 1200 * k,
          dict(FR, SnkServer='FALSE', DirFlagSet='{FALSE}', **NOREF, **CUT)),
-        ('s_clisnk_n', 'cli_sink', 3000 * k,
+        ('s_clisnk_n', 'cli_sink', 1500 * k,
          dict(FR, SnkServer='FALSE', DirFlagSet='{FALSE}', **NOREF, **NOCUT)),
-        ('s_srvsnk_c', 'srv_sink', 2500 * k,
+        ('s_srvsnk_c', 'srv_sink', 1500 * k,
          dict(FR, SnkServer='TRUE', HandlerSet='{FALSE}', **REFK, **CUT)),
-        ('s_srvsnk_n', 'srv_sink', 3000 * k,
+        ('s_srvsnk_n', 'srv_sink', 1500 * k,
          dict(FR, SnkServer='TRUE', HandlerSet='{FALSE}', **NOREF, **NOCUT)),
     ]
     small = dict(MaxNodes=2, DstKinds='{"dir"}', DirFlagSet='{FALSE}',
@@ -229,35 +244,40 @@ def main(ctx):
     FRS = dict(SrcRole='"free"', MaxNodes=0, MaxName=2, Sizes='{0, 1}',
                MaxRec=2 if quick else 3, HandlerSet='{FALSE}',
                DirFlagSet='{TRUE, FALSE}' if not quick else '{FALSE}')
+    LQ = dict(DstKinds='{"dir"}', PresSet='{TRUE}', RecSet='{TRUE}',
+              Sizes='{0, 1}', RefKinds='{"sopen", "kcreate", "kwrite"}') \
+        if quick else dict(DstKinds='{"dir", "none"}')
+    XQ = dict(PresSet='{TRUE}', RecSet='{TRUE}') if quick else {}
     checks = [
         # (name, expected violation or None, constants, property)
         ('x_fsnk_cli', None, dict(FS, MaxNodes=2, TopMax=2, **CUT), None),
         ('x_fsnk_srv', None, dict(FS, MaxNodes=2, TopMax=2, SrcServer='TRUE',
                                   HandlerSet='{FALSE}', **CUT), None),
-        ('x_fsrc_srv', None, dict(FRS, SnkServer='TRUE', **REFK, **CUT),
+        ('x_fsrc_srv', None, dict(FRS, SnkServer='TRUE', **REFK, **CUT, **XQ),
          None),
         ('x_fsrc_cli', None, dict(FRS, SnkServer='FALSE',
-                                  HandlerSet='{TRUE, FALSE}', **NOREF, **CUT),
-         None),
+                                  HandlerSet='{TRUE, FALSE}', **NOREF, **CUT,
+                                  **XQ), None),
         # liveness under weak fairness, connection loss at any point
-        ('live_up', None, dict(UP, AllowCut='"any"', DstKinds='{"dir", "none"}',
-                               DirFlagSet='{FALSE}', TopMax=1,
-                               Sizes='{0, 1}' if quick else '{0, 1, 2}'),
-         'Terminates'),
-        ('live_r2r', None, dict(R2R, AllowCut='"any"', DstKinds='{"dir"}',
-                                DirFlagSet='{FALSE}', TopMax=1,
-                                PresSet='{TRUE}', RecSet='{TRUE}',
-                                Sizes='{0, 1}' if quick else '{0, 1, 2}'),
-         'Terminates'),
-        ('live_fsnk', None, dict(FS, MaxNodes=2, AllowCut='"any"'),
-         'Terminates'),
+        ('live_up', None, dict(UP, AllowCut='"any"', DirFlagSet='{FALSE}',
+                               TopMax=1, **LQ), 'Terminates'),
+        ('live_r2r', None, dict(R2R, AllowCut='"any"', DirFlagSet='{FALSE}',
+                                TopMax=1, **LQ), 'Terminates'),
+        ('live_fsnk', None, dict(FS, MaxNodes=2, AllowCut='"any"',
+                                 PresSet='{TRUE}' if quick else
+                                 '{TRUE, FALSE}'), 'Terminates'),
         ('live_fsrc', None, dict(FRS, SnkServer='TRUE', AllowCut='"any"',
-                                 DstKinds='{"dir"}', **NOREF), 'Terminates'),
+                                 DstKinds='{"dir"}', **NOREF,
+                                 PresSet='{TRUE}' if quick else
+                                 '{TRUE, FALSE}'), 'Terminates'),
         # sensitivity: wrong rules that TLC must reject
         ('nowait', 'NoDesync', dict(small, WaitAfterData='FALSE'), None),
         ('warnfatal', 'RefusalsReported', dict(small, WarnIsFatal='TRUE'),
          None),
         ('noE', 'TreeReproduced', dict(small, SendEmptyE='FALSE'), None),
+        ('fatalwarn', 'FatalRaised',
+         dict(FS, MaxNodes=1, FatalIsWarn='TRUE', RefKinds='{}', MaxRefuse=0),
+         None),
         ('nostat', 'NoDesync', dict(small, SinkReadsStatus='FALSE'), None),
         ('norecord', 'RefusalsReported', dict(small, RecordErrors='FALSE'),
          None),
